@@ -90,7 +90,15 @@ def deathProp (trace : List (Rec × List Rec)) : Option String :=
 /-- C09 -/
 def exitProp (trace : List (Rec × List Rec)) : Option String :=
   forRuns trace fun op obs =>
-    if outcome obs != "result" then none
+    if outcome obs == "runerr" then
+      -- a run that stops with an error where the battle goes on (the same inputs give further turns) stopped
+      -- early without a win, a loss or the cycle limit
+      let (m, _) := SimAdapter.runModel op obs
+      let turns (l : List Rec) := (l.filter (·.name == "TurnStart")).length
+      if turns obs < turns m then
+        some s!"the run stopped with an error after {turns obs} turns although the battle goes on (no side wiped out, cycle limit not reached; {turns m - turns obs} more turn(s) follow from the same inputs): {((obs.find? (·.name == "runerr")).map (·.str "msg")).getD ""}"
+      else none
+    else if outcome obs != "result" then none
     else
       let nchars := (op.ints "ckind").length
       let nunits := nchars + (op.list "ehp").length
